@@ -6,6 +6,10 @@
 //! happen-after every read of the text is reported by loom as a causality violation, and a read
 //! or a second free after the free is reported directly.
 //!
+//! Freed storage is quarantined until the end of the execution (`finish`) instead of being
+//! returned to the allocator at once: a subject that keeps using freed storage then runs on
+//! deterministically into one of the oracles instead of corrupting the process.
+//!
 //! The table itself is guarded by a `std` mutex, which loom does not see: it adds neither
 //! scheduling points nor happens-before edges to the execution under test.
 
@@ -25,6 +29,8 @@ unsafe impl Send for Cell {}
 unsafe impl Sync for Cell {}
 
 static TABLE: Mutex<Option<HashMap<usize, Arc<Cell>>>> = Mutex::new(None);
+/// freed in this execution, really released by `finish`
+static QUARANTINE: Mutex<Vec<(usize, Layout)>> = Mutex::new(Vec::new());
 
 fn table<R>(f: impl FnOnce(&mut HashMap<usize, Arc<Cell>>) -> R) -> R {
     let mut g = TABLE.lock().unwrap_or_else(|e| e.into_inner());
@@ -34,6 +40,16 @@ fn table<R>(f: impl FnOnce(&mut HashMap<usize, Arc<Cell>>) -> R) -> R {
 /// Start of a loom execution: no storage is live.
 pub fn reset() {
     table(|t| t.clear());
+    QUARANTINE.lock().unwrap_or_else(|e| e.into_inner()).clear();
+}
+
+/// End of a loom execution (every thread joined): release the quarantined storage for real.
+pub fn finish() {
+    let q = std::mem::take(&mut *QUARANTINE.lock().unwrap_or_else(|e| e.into_inner()));
+    for (p, layout) in q {
+        // SAFETY: `p` was allocated by `alloc` with `layout` and has not been released yet.
+        unsafe { loom::alloc::dealloc(p as *mut u8, layout) };
+    }
 }
 
 /// Number of live text allocations.
@@ -65,8 +81,7 @@ pub unsafe fn dealloc(ptr: *mut u8, layout: Layout) {
     };
     // tracked write: must happen-after every tracked read
     cell.0.with_mut(|_| ());
-    // SAFETY: forwarded contract.
-    unsafe { loom::alloc::dealloc(ptr, layout) };
+    QUARANTINE.lock().unwrap_or_else(|e| e.into_inner()).push((ptr as usize, layout));
 }
 
 /// Inserted at the top of `ArcStr::as_ref`.
